@@ -61,15 +61,20 @@ var (
 
 // typeErrClass turns a type error into a class: position dropped, generated identifiers
 // (k12, vz300) normalised; "undefined: pkg" keeps the package name.
-func typeErrClass(err error) string {
+func typeErrClass(err error, b string) string {
 	s := reErrPos.ReplaceAllString(err.Error(), "")
 	s = firstLine(s)
-	s = reErrQuoted.ReplaceAllString(s, "id")
-	if strings.HasPrefix(s, "undefined: ") {
-		name := strings.TrimPrefix(s, "undefined: ")
-		if _, std := stdShort[name]; std {
-			return s // the suggested code names a package the file does not import
+	if strings.HasPrefix(s, "/") || strings.Contains(s, ".go:") {
+		s = s[strings.LastIndex(s, ": ")+1:]
+	}
+	s = strings.TrimSpace(reErrQuoted.ReplaceAllString(s, "id"))
+	// the suggested code names a package the file does not import (or that is shadowed there)
+	for name := range stdShort {
+		if strings.Contains(b, name+".") && (s == "undefined: "+name || strings.HasPrefix(s, name+".") && strings.Contains(s, "undefined")) {
+			return "undefined: " + name
 		}
+	}
+	if strings.HasPrefix(s, "undefined: ") {
 		return "undefined: <ident>"
 	}
 	if strings.HasPrefix(s, "declared and not used") {
@@ -269,7 +274,7 @@ func checkC09(t core.TB, rec *core.Recorder, env *gen.Env, all *core.Set, p *cor
 					continue
 				}
 				if len(p2.TypeErrs) > 0 {
-					fail("does-not-typecheck|"+typeErrClass(p2.TypeErrs[0]), "after the edit: "+p2.ErrSummary())
+					fail("does-not-typecheck|"+typeErrClass(p2.TypeErrs[0], s.B), "after the edit: "+p2.ErrSummary())
 					continue
 				}
 				// (4) the replaced expression keeps its type
@@ -288,9 +293,11 @@ func checkC09(t core.TB, rec *core.Recorder, env *gen.Env, all *core.Set, p *cor
 				// (5) re-analysis no longer reports that diagnostic at that place (machine fixes;
 				// only when no other diagnostic of the checker overlaps the range)
 				if s.Origin == "fix" {
+					// nested matches (s[:][:]) legitimately re-create the diagnostic; an identical
+					// fix on another diagnostic is no excuse
 					overlap := false
 					for dj, o := range ds {
-						if dj != di && o.HasFix && o.FixFrom < s.To && s.From < o.FixTo {
+						if dj != di && o.HasFix && o.FixFrom < s.To && s.From < o.FixTo && !(o.FixFrom == s.From && o.FixTo == s.To && o.Fix == s.B) {
 							overlap = true
 						}
 					}
@@ -298,8 +305,13 @@ func checkC09(t core.TB, rec *core.Recorder, env *gen.Env, all *core.Set, p *cor
 						set, err := core.NewSet(env.Fset, infosByName(name))
 						if err == nil {
 							ds2, _ := set.RunAll(p2, fi)
+							// where the diagnostic would be after the edit
+							newOff := d.Offset
+							if d.Offset >= s.To {
+								newOff += len(s.B) - (s.To - s.From)
+							}
 							for _, o := range ds2[name] {
-								if o.Offset == d.Offset && o.Text == d.Text {
+								if o.Offset == newOff && o.Text == d.Text {
 									fail("repeats", "re-analysing the fixed file reports the same diagnostic at the same place")
 								}
 							}
